@@ -138,6 +138,31 @@ def publication_rules(prog, chk, pid):
                     if se or (isinstance(n.func.value, ast.Name) and n.func.value.id in entry_alias):
                         n_sites += 1
                         chk.fail(P("replace-only"), m.qualname, ast.unparse(n)[:60], where(n), "mutating call on the shared %s reached through the instance dictionary" % (se[0] if se else entry_alias[n.func.value.id]))
+        # ---- who may write the table: the constructors (before the object is shared) and _maybe_precompute (the one publisher).  A store anywhere else --
+        # even of a fresh list -- discards a table that another thread may be walking (an in-place rescale that also resets the table, a "clear cache" method)
+        writers = {}
+        for mname, m in cls.methods.items():
+            for n in ast.walk(m.node):
+                if isinstance(n, (ast.Assign, ast.AugAssign, ast.Delete)):
+                    tg = n.targets if isinstance(n, (ast.Assign, ast.Delete)) else [n.target]
+                    for t in tg:
+                        for x in (t.elts if isinstance(t, (ast.Tuple, ast.List)) else [t]):
+                            if _is_shared_attr(x, ("__precompute",)):
+                                writers.setdefault(mname, n)
+        allowed_w = {"__init__", "__setstate__", "_maybe_precompute"}
+
+        def only_from_allowed(name, seen=()):
+            if name in allowed_w:
+                return True
+            if name in seen:
+                return False
+            callers = [mn for mn, mm in cls.methods.items() if mn != name and any(isinstance(c_, ast.Attribute) and c_.attr == name and isinstance(c_.value, ast.Name) and c_.value.id in ("self", "cls") for c_ in ast.walk(mm.node))]
+            return bool(callers) and all(only_from_allowed(c_, seen + (name,)) for c_ in callers)
+
+        for mname, node in writers.items():
+            chk.require(only_from_allowed(mname), P("table-writers"), cls.methods[mname].qualname, "self.__precompute written in %s" % mname, "%s:%d" % (cls.methods[mname].file, node.lineno),
+                        "the multiplication table is written only by the constructors and by its one publisher (or by helpers reached only from them)",
+                        "%s writes the shared table and is reachable from methods other than the constructors and _maybe_precompute: a published table can be replaced or emptied while another thread is using it" % mname)
         chk.info["%s_shared_store_sites" % cname] = n_sites
         # ---- publish-last
         m = cls.methods.get("_maybe_precompute")
